@@ -3,7 +3,7 @@ C15 - results depend only on text and settings, not on what ran before.
 
 Explicit enumeration of event histories on the *process-global* state of the library (MasterConfig
 defaults, TRS cache content, TRS._USE_CACHE, objects kept alive, previously returned dicts/lists):
-every sequence of up to 3 (quick) / 4 (thorough) events from a menu of 16, followed by a probe battery
+every sequence of up to 3 (quick) / 4 (thorough) events from a menu of 18, followed by a probe battery
 whose observations must equal those of the same battery in a *fresh interpreter* started with the
 MasterConfig values in force at probe time; then MasterConfig is restored and the battery must equal
 the pristine one.
@@ -23,7 +23,7 @@ STATES_FROM_OUTCOMES = True    # distinct canonical global states reached
 LEVEL = 'model_checking'
 TECHNIQUE = ('exhaustive enumeration of event histories on process-global state (defaults, TRS cache, cache switch, mutated return '
              'values, live objects) followed by a probe battery; differential oracle = same battery in a fresh interpreter')
-LEVEL_TEXT = ('All histories of up to 3 (quick) / 4 (thorough) events out of 16 - parse other descriptions whose TRS strings collide '
+LEVEL_TEXT = ('All histories of up to 3 (quick) / 4 (thorough) events out of 18 - parse other descriptions whose TRS strings collide '
               'with the probes up to direction letters, set/restore each MasterConfig default, clear / disable / enable / pre-warm the '
               'TRS cache, mutate every dict and list previously returned by the conversion functions, create objects under other '
               'defaults and keep them alive - are executed in one process and followed by a 60-observation probe battery compared with '
@@ -65,6 +65,20 @@ def ev_parse_dirless():
 def ev_parse_same_text_other_cfg():
     d = _p.PLSSDesc('T154-R97 Sec 14: NE/4', config='s,e,clean_qq,qq_depth.1', parse_qq=True)
     _last['desc'] = d
+
+
+def ev_parse_ocr():
+    _last['desc'] = _p.PLSSDesc('TI54N-R97W Sec 14: NE/4', config='ocr_scrub', parse_qq=True)
+    _p.find_twprge('Tl54N-R9SW', ocr_scrub=True)
+    _last['desc'].preprocess(ocr_scrub=True)
+
+
+def ev_parse_modes():
+    _p.PLSSDesc('T154N-R97W That part of the NE of Sec 14 lying north, T155N-R97W Sec 1 ALL', parse_qq=True,
+                config='segment,sec_within,clean_qq,sec_colon_cautious,qq_depth.1,break_halves,suppress_lot_divs')
+    _p.PLSSDesc('Sec 14: NE/4, T154N-R97W', layout='desc_STR')
+    t = _p.Tract('N/2 of Lot 1, NE', trs='154n97w14', config='clean_qq,suppress_lot_divs,qq_depth.3', parse_qq=True)
+    t.parse(clean_qq=False, qq_depth=1)
 
 
 def ev_ns_s():
@@ -155,7 +169,7 @@ def ev_reparse_kept():
             k.parse(clean_qq=True)
 
 
-EVENTS = [ev_parse_other_dirs, ev_parse_dirless, ev_parse_same_text_other_cfg, ev_ns_s, ev_ns_n, ev_ew_e, ev_ew_w, ev_clear,
+EVENTS = [ev_parse_other_dirs, ev_parse_dirless, ev_parse_same_text_other_cfg, ev_parse_ocr, ev_parse_modes, ev_ns_s, ev_ns_n, ev_ew_e, ev_ew_w, ev_clear,
           ev_nocache, ev_cache, ev_warm, ev_mutate_dicts, ev_mutate_returned, ev_keep_objects, ev_sort_kept, ev_reparse_kept]
 NAMES = [e.__name__[3:] for e in EVENTS]
 
